@@ -281,4 +281,99 @@ theorem solutions_mono (scan scan' : List Triple) (glo ghi : Option Int) (cs : L
     apply ih (fun c hc' => hc c (List.mem_cons_of_mem _ hc'))
     exact joinClause_mono scan scan' glo ghi rows rows' c (hc c (by simp)) hs h
 
+/-! ### The solutions do not depend on how the data is laid out -/
+
+theorem flatMap_perm_left {α β : Type} (l : List α) (f g : α → List β) (h : ∀ a ∈ l, (f a).Perm (g a)) :
+    (l.flatMap f).Perm (l.flatMap g) := by
+  induction l with
+  | nil => exact List.Perm.refl _
+  | cons a l ih =>
+    simp only [List.flatMap_cons]
+    exact List.Perm.append (h a (by simp)) (ih fun x hx => h x (List.mem_cons_of_mem _ hx))
+
+/-- One join step yields the same rows (as a multiset) whatever the order of the scanned triples. -/
+theorem joinClause_perm_scan (scan scan' : List Triple) (glo ghi : Option Int) (rows : List Row) (c : Clause)
+    (hs : scan.Perm scan') : (joinClause scan glo ghi rows c).Perm (joinClause scan' glo ghi rows c) := by
+  unfold joinClause
+  apply flatMap_perm_left
+  intro r _
+  have hp : ((scan.filterMap (matchClause c (clauseWindow glo ghi c r))).filter (compatible r)).Perm
+      ((scan'.filterMap (matchClause c (clauseWindow glo ghi c r))).filter (compatible r)) :=
+    (hs.filterMap _).filter _
+  simp only
+  by_cases hc : c.optional = true
+  · simp only [hc, if_true]
+    rw [hp.isEmpty_eq]
+    split
+    · exact List.Perm.refl _
+    · exact hp.map _
+  · simp only [hc, Bool.false_eq_true, if_false]
+    exact hp.map _
+
+theorem joinClause_perm_rows (scan : List Triple) (glo ghi : Option Int) (rows rows' : List Row) (c : Clause)
+    (hr : rows.Perm rows') : (joinClause scan glo ghi rows c).Perm (joinClause scan glo ghi rows' c) := by
+  unfold joinClause
+  exact hr.flatMap_right _
+
+/-- The multiset of solutions is the same for every order of the scanned triples: in particular for
+    every way of partitioning one data set over the graphs listed in FROM. -/
+theorem solutions_perm_scan (scan scan' : List Triple) (glo ghi : Option Int) (cs : List Clause) (hs : scan.Perm scan') :
+    (solutions scan glo ghi cs).Perm (solutions scan' glo ghi cs) := by
+  unfold solutions
+  suffices H : ∀ rows rows' : List Row, rows.Perm rows' →
+      (cs.foldl (joinClause scan glo ghi) rows).Perm (cs.foldl (joinClause scan' glo ghi) rows') from H _ _ (List.Perm.refl _)
+  induction cs with
+  | nil => intro rows rows' h; exact h
+  | cons c cs ih =>
+    intro rows rows' h
+    simp only [List.foldl_cons]
+    exact ih _ _ ((joinClause_perm_rows scan glo ghi rows rows' c h).trans (joinClause_perm_scan scan scan' glo ghi rows' c hs))
+
+/-! ### Adding triples never removes solutions (multiset form) -/
+
+theorem flatMap_sublist {α β : Type} (l₁ l₂ : List α) (f g : α → List β) (hl : l₁.Sublist l₂) (h : ∀ a, (f a).Sublist (g a)) :
+    (l₁.flatMap f).Sublist (l₂.flatMap g) := by
+  induction hl with
+  | slnil => exact List.Sublist.refl _
+  | cons a _ ih =>
+    simp only [List.flatMap_cons]
+    exact ih.trans (List.sublist_append_right _ _)
+  | cons_cons a _ ih =>
+    simp only [List.flatMap_cons]
+    exact List.Sublist.append (h a) ih
+
+theorem joinClause_sublist (scan scan' : List Triple) (glo ghi : Option Int) (rows rows' : List Row) (c : Clause)
+    (hc : c.optional = false) (hs : scan.Sublist scan') (hr : rows.Sublist rows') :
+    (joinClause scan glo ghi rows c).Sublist (joinClause scan' glo ghi rows' c) := by
+  unfold joinClause
+  apply flatMap_sublist _ _ _ _ hr
+  intro r
+  simp only [hc, Bool.false_eq_true, if_false]
+  exact ((hs.filterMap _).filter _).map _
+
+theorem solutions_sublist (scan scan' : List Triple) (glo ghi : Option Int) (cs : List Clause)
+    (hc : ∀ c ∈ cs, c.optional = false) (hs : scan.Sublist scan') :
+    (solutions scan glo ghi cs).Sublist (solutions scan' glo ghi cs) := by
+  unfold solutions
+  suffices H : ∀ rows rows' : List Row, rows.Sublist rows' →
+      (cs.foldl (joinClause scan glo ghi) rows).Sublist (cs.foldl (joinClause scan' glo ghi) rows') from H _ _ (List.Sublist.refl _)
+  induction cs with
+  | nil => intro rows rows' h; exact h
+  | cons c cs ih =>
+    intro rows rows' h
+    simp only [List.foldl_cons]
+    exact ih (fun c' hc' => hc c' (List.mem_cons_of_mem _ hc')) _ _
+      (joinClause_sublist scan scan' glo ghi rows rows' c (hc c (by simp)) hs h)
+
+/-- `a` is contained in `b` as a multiset. -/
+def SubMulti {α : Type} (a b : List α) : Prop := ∃ l : List α, l.Perm a ∧ l.Sublist b
+
+/-- With multiplicities: if the data grows (as a multiset of triple occurrences), every solution
+    keeps at least its multiplicity. -/
+theorem solutions_subperm (scan scan' : List Triple) (glo ghi : Option Int) (cs : List Clause)
+    (hc : ∀ c ∈ cs, c.optional = false) (hs : SubMulti scan scan') :
+    SubMulti (solutions scan glo ghi cs) (solutions scan' glo ghi cs) := by
+  obtain ⟨l, hl, hsub⟩ := hs
+  exact ⟨solutions l glo ghi cs, solutions_perm_scan l scan glo ghi cs hl, solutions_sublist l scan' glo ghi cs hc hsub⟩
+
 end BW.Proofs.Query
